@@ -289,10 +289,10 @@ Section Pass.
     (forall rid b, In (rid, b) l -> PropReg.bkey w b = Some (id, rid)) ->
     rord w l lo -> (forall b, In b done -> SETTLED lo w b) ->
     PropSimLazy.evalall_loop fn rtl fuel id l w = (w', None) ->
-    ML fn w' /\ views_eq w w' /\ (forall b, In b done -> exists hi, SETTLED hi w' b) /\ (forall rb, In rb l -> exists hi, SETTLED hi w' (snd rb)).
+    ML fn w' /\ views_eq w w' /\ w_evps w' = w_evps w /\ (forall b, In b done -> exists hi, SETTLED hi w' b) /\ (forall rb, In rb l -> exists hi, SETTLED hi w' (snd rb)).
   Proof.
     intros Hid. induction l as [|[rid b] r IH]; intros w w' lo done HML Hrk Hst Hsub HK Hord Hdone H; cbn [PropSimLazy.evalall_loop] in H.
-    - inversion H; subst w'. split; [exact HML|]. split; [apply views_eq_refl|]. split; [intros b Hb; exists lo; auto|intros rb []].
+    - inversion H; subst w'. split; [exact HML|]. split; [apply views_eq_refl|]. split; [reflexivity|]. split; [intros b Hb; exists lo; auto|intros rb []].
     - rewrite Hst in H.
       assert (Hstill : existsb (fun q => Nat.eqb (fst q) rid) (ep_registry st) = true).
       { apply existsb_exists. exists (rid, b). split; [apply Hsub; left; reflexivity|cbn; apply Nat.eqb_refl]. }
@@ -309,10 +309,10 @@ Section Pass.
         (* the binding is still alive: its view is unchanged *)
         unfold PropReg.bkey in Hk, K. destruct (get_bind w b') as [z|] eqn:Hz; [|discriminate Hk].
         destruct V1 as (B1 & _). pose proof (B1 b') as Eb. unfold bview in Eb. rewrite Hz in Eb. destruct (get_bind w1 b'); [discriminate K|discriminate Eb]. }
-      destruct (IH w1 w' (S (rk q)) (b :: done) ML1 (RKI_views rk _ _ V1 Hrk)) as (ML' & V' & D' & L'); [rewrite Ev1; exact Hst|intros rb Hi; apply Hsub; right; exact Hi|exact HK1|
+      destruct (IH w1 w' (S (rk q)) (b :: done) ML1 (RKI_views rk _ _ V1 Hrk)) as (ML' & V' & E' & D' & L'); [rewrite Ev1; exact Hst|intros rb Hi; apply Hsub; right; exact Hi|exact HK1|
         apply (rord_views _ _ V1); exact Hord| |exact H|].
       { intros b0 [<-|Hi]; [exact Sb|]. apply (SETTLED_mono (rk q)); [lia|]. apply Keep. apply (SETTLED_mono lo); [exact Hlo|]. exact (Hdone b0 Hi). }
-      split; [exact ML'|]. split; [eapply views_eq_trans; eauto|]. split; [intros b0 Hi; apply D'; right; exact Hi|].
+      split; [exact ML'|]. split; [eapply views_eq_trans; eauto|]. split; [congruence|]. split; [intros b0 Hi; apply D'; right; exact Hi|].
       intros rb [<-|Hi]; [cbn [snd]; apply D'; left; reflexivity|apply L'; exact Hi].
   Qed.
 
@@ -320,17 +320,212 @@ Section Pass.
   Theorem mixed_evalall_one_pass fuel w e id st w' :
     ML fn w -> RKI w -> PropReg.REGI w -> lookup (w_bevs w) e = Some id -> id <> 0 -> nth_error (w_evps w) id = Some st ->
     rord w (ep_registry st) 0 -> step1 fn rtl fuel w (BevEvalAll e) = (w', None) ->
-    ML fn w' /\ views_eq w w' /\
+    ML fn w' /\ views_eq w w' /\ w_evps w' = w_evps w /\
     forall rid b, In (rid, b) (ep_registry st) ->
       exists x T q, get_bind w' b = Some x /\ abs_tree (b_root x) = Some T /\ b_target x = Some q /\ A.clean T /\
                     envof w' q = A.den F1 F2 F3 (envof w') T.
   Proof.
     intros HML Hrk HR He Hid Hst Hord H. cbn [step1] in H. rewrite He, Hst in H.
     change (PropSimLazy.evalall_loop fn rtl fuel id (ep_registry st) w = (w', None)) in H.
-    destruct (pass_settles fuel id st Hid (ep_registry st) w w' 0 [] HML Hrk Hst (fun rb Hi => Hi)) as (ML' & V' & _ & L'); [|exact Hord|intros b []|exact H|].
+    destruct (pass_settles fuel id st Hid (ep_registry st) w w' 0 [] HML Hrk Hst (fun rb Hi => Hi)) as (ML' & V' & E' & _ & L'); [|exact Hord|intros b []|exact H|].
     { intros rid b Hi. exact (HR id st rid b Hst Hi). }
-    split; [exact ML'|]. split; [exact V'|]. intros rid b Hi. destruct (L' (rid, b) Hi) as (hi & x & T & q & G & Hev & HT & C & Ht & Hv & _).
+    split; [exact ML'|]. split; [exact V'|]. split; [exact E'|]. intros rid b Hi. destruct (L' (rid, b) Hi) as (hi & x & T & q & G & Hev & HT & C & Ht & Hv & _).
     exists x, T, q. split; [exact G|]. split; [exact HT|]. split; [exact Ht|]. split; [exact C|].
     destruct ML' as (_ & _ & _ & HM'). rewrite Hv. apply (L.clean_sound_den F1 F2 F3); [exact C|]. apply (HM' b T). exists x. auto.
   Qed.
 End Pass.
+
+(* ================================================================================================================== *)
+(* growing mixed networks are ranked: creation order *)
+Section Rank.
+  Variable fn : nat -> list Z -> option Z.
+  Variable rtl : bool.
+  Notation F1 := (PropSim.F1 fn).
+  Notation F2 := (PropSim.F2 fn).
+  Notation F3 := (PropSim.F3 fn).
+
+  Definition RANKED (rk : nat -> nat) (M : nat) (w : world) : Prop :=
+    RKI rk w /\ (forall id st, nth_error (w_evps w) id = Some st -> rord rk w (ep_registry st) 0) /\
+    (forall y, lookup (w_props w) y <> None -> rk y < M).
+
+  Lemma rord_transfer rk rk' w w' : forall l lo,
+    (forall rb, In rb l -> bview w' (snd rb) = bview w (snd rb) /\ forall ls q, bview w (snd rb) = Some (ls, Some q) -> rk' q = rk q) ->
+    rord rk w l lo -> rord rk' w' l lo.
+  Proof.
+    induction l as [|rb r IH]; intros lo Hall H; cbn [rord] in *; [exact I|]. destruct H as (ls & q & Hb & Hlo & Hr).
+    destruct (Hall rb (or_introl eq_refl)) as (E1 & E2). exists ls, q. rewrite E1, (E2 ls q Hb). split; [exact Hb|]. split; [exact Hlo|].
+    apply IH; [intros rb' Hi; apply Hall; right; exact Hi|exact Hr].
+  Qed.
+
+  Lemma rord_snoc rk w rb ls p M : bview w (snd rb) = Some (ls, Some p) -> rk p = M -> forall l lo,
+    (forall rb' ls' q', In rb' l -> bview w (snd rb') = Some (ls', Some q') -> rk q' < M) -> lo <= M ->
+    rord rk w l lo -> rord rk w (l ++ [rb]) lo.
+  Proof.
+    intros Hb Hp. induction l as [|r0 r IH]; intros lo Hall Hlo H; cbn [rord app] in *.
+    - exists ls, p. split; [exact Hb|]. split; [lia|exact I].
+    - destruct H as (ls0 & q0 & Hb0 & Hlo0 & Hr). exists ls0, q0. split; [exact Hb0|]. split; [exact Hlo0|].
+      apply IH; [intros rb' ls' q' Hi; apply Hall; right; exact Hi| |exact Hr]. pose proof (Hall r0 ls0 q0 (or_introl eq_refl) Hb0). lia.
+  Qed.
+
+  Lemma RANKED_same rk M w w' :
+    (forall b, bview w' b = bview w b) -> w_evps w' = w_evps w -> (forall y, lookup (w_props w') y <> None -> lookup (w_props w) y <> None) ->
+    RANKED rk M w -> RANKED rk M w'.
+  Proof.
+    intros B E D (H1 & H2 & H3). split; [|split].
+    - intros b ls q lf y Hb. rewrite B in Hb. exact (H1 b ls q lf y Hb).
+    - intros id st Hst. rewrite E in Hst. apply (rord_transfer rk rk w w' _ 0); [intros rb _; split; [apply B|auto]|exact (H2 id st Hst)].
+    - intros y Hy. exact (H3 y (D y Hy)).
+  Qed.
+  Lemma RANKED_views rk M w w' : views_eq w w' -> w_evps w' = w_evps w -> RANKED rk M w -> RANKED rk M w'.
+  Proof.
+    intros (B & _ & P & _) E. apply RANKED_same; [exact B|exact E|]. intros y Hy Hn. apply Hy. pose proof (P y) as Ey. unfold pview in Ey.
+    rewrite Hn in Ey. destruct (lookup (w_props w') y); [discriminate Ey|reflexivity].
+  Qed.
+
+  Definition bump (rk : nat -> nat) (p M : nat) : nat -> nat := fun y => if Nat.eqb y p then M else rk y.
+
+  (* every property a live binding mentions exists *)
+  Lemma mentioned_exist w : pinv w -> forall b ls tg, bview w b = Some (ls, tg) ->
+    (forall q, tg = Some q -> lookup (w_props w) q <> None) /\ (forall lf y, In lf ls -> lf_tg lf = Some y -> lookup (w_props w) y <> None).
+  Proof.
+    intros Hinv b ls tg Hb. split.
+    - intros q ->. destruct (pi_tgt _ _ _ _ _ _ _ Hinv b ls q Hb) as (vv & Hv & _). unfold pview in Hv. destruct (lookup (w_props w) q); [discriminate|discriminate Hv].
+    - intros lf y Hlf Htg. assert (Hleaf : has_leaf w b lf) by (exists ls, tg; auto).
+      pose proof (pi_leafx _ _ _ _ _ _ _ Hinv b lf y Hleaf Htg) as Hex. unfold pview in Hex. destruct (lookup (w_props w) y); [discriminate|exfalso; apply Hex; reflexivity].
+  Qed.
+
+  Lemma RANKED_new_prop rk M w p v : pinv w -> RANKED rk M w -> lookup (w_props w) p = None ->
+    RANKED (bump rk p M) (S M) (set_props w (bind_key (w_props w) p (prop_new v))).
+  Proof.
+    intros Hinv (H1 & H2 & H3) Hp. set (w' := set_props w _). set (rk' := bump rk p M).
+    assert (Old : forall y, lookup (w_props w) y <> None -> rk' y = rk y).
+    { intros y Hy. unfold rk', bump. destruct (Nat.eqb_spec y p) as [->|]; [contradiction|reflexivity]. }
+    split; [|split].
+    - intros b ls q lf y Hb Hlf Htg. change (bview w' b) with (bview w b) in Hb. destruct (mentioned_exist w Hinv b ls (Some q) Hb) as (Eq & El).
+      rewrite (Old q (Eq q eq_refl)), (Old y (El lf y Hlf Htg)). exact (H1 b ls q lf y Hb Hlf Htg).
+    - intros id st Hst. change (w_evps w') with (w_evps w) in Hst. apply (rord_transfer rk rk' w w' _ 0); [|exact (H2 id st Hst)].
+      intros rb _. split; [reflexivity|]. intros ls q Hb. destruct (mentioned_exist w Hinv _ ls (Some q) Hb) as (Eq & _). exact (Old q (Eq q eq_refl)).
+    - intros y Hy. unfold w' in Hy; cbn [set_props w_props] in Hy. rewrite lookup_bind in Hy. unfold rk', bump. destruct (Nat.eqb_spec y p); [lia|].
+      pose proof (H3 y Hy). lia.
+  Qed.
+
+  (* p = makeBinding / makeBoundProperty for a fresh p *)
+  Lemma RANKED_bind_fresh rk M fuel w p e m w' :
+    ML fn w -> NOEMIT w -> PropReg.REGI w -> RANKED rk M w -> lookup (w_props w) p = None ->
+    (match m with MImmediate => True | MEvaluator e0 => exists id, lookup (w_bevs w) e0 = Some id /\ id <> 0 end) ->
+    step1 fn rtl fuel w (PBind p e m) = (w', None) -> RANKED (bump rk p M) (S M) w'.
+  Proof.
+    intros HML HNE HR (H1 & H2 & H3) Hp Hmode H. pose proof HML as (Hinv & _).
+    destruct (bind_fresh_shape fn rtl fuel w p e m w' HML HNE Hp Hmode H) as (w7 & v & b & ep & st0 & ls & H7 & (Hinv7 & Hna7 & _) & Eb & Bold & Bnew & Lex & Hst0 & Hev7 & Dom7).
+    set (rk' := bump rk p M).
+    assert (Old : forall y, lookup (w_props w) y <> None -> rk' y = rk y).
+    { intros y Hy. unfold rk', bump. destruct (Nat.eqb_spec y p) as [->|]; [contradiction|reflexivity]. }
+    assert (Newp : rk' p = M) by (unfold rk', bump; rewrite Nat.eqb_refl; reflexivity).
+    assert (R7 : RANKED rk' (S M) w7).
+    { split; [|split].
+      - intros c ls0 q lf y Hb Hlf Htg. destruct (Nat.eq_dec c b) as [->|Hne].
+        + rewrite Bnew in Hb. inversion Hb; subst ls0 q. rewrite Newp, (Old y (Lex lf y Hlf Htg)). exact (H3 y (Lex lf y Hlf Htg)).
+        + rewrite (Bold c Hne) in Hb. destruct (mentioned_exist w Hinv c ls0 (Some q) Hb) as (Eq & El).
+          rewrite (Old q (Eq q eq_refl)), (Old y (El lf y Hlf Htg)). exact (H1 c ls0 q lf y Hb Hlf Htg).
+      - intros id st Hst. rewrite Hev7 in Hst.
+        assert (Tr : forall l, (forall rb, In rb l -> snd rb <> b) -> rord rk w l 0 -> rord rk' w7 l 0).
+        { intros l Hl. apply rord_transfer. intros rb Hi. split; [apply Bold; exact (Hl rb Hi)|].
+          intros ls0 q Hb. destruct (mentioned_exist w Hinv _ ls0 (Some q) Hb) as (Eq & _). exact (Old q (Eq q eq_refl)). }
+        assert (Reg : forall id' st' rb, nth_error (w_evps w) id' = Some st' -> In rb (ep_registry st') -> snd rb <> b).
+        { intros id' st' [rid c] Hs Hi. pose proof (HR id' st' rid c Hs Hi) as Hk. pose proof (PropReg.bkey_lt0 _ _ _ Hk). cbn [snd]. lia. }
+        destruct (Nat.eq_dec ep id) as [<-|Hne].
+        + rewrite nth_upd_same in Hst by (apply nth_error_Some; congruence). inversion Hst; subst st. cbn [ep_registry].
+          apply (rord_snoc rk' w7 (S (ep_next st0), b) ls p M); [cbn [snd]; exact Bnew|exact Newp| |lia|].
+          * intros rb' ls' q' Hi Hb'. rewrite (Bold _ (Reg ep st0 rb' Hst0 Hi)) in Hb'. destruct (mentioned_exist w Hinv _ ls' (Some q') Hb') as (Eq & _).
+            rewrite (Old q' (Eq q' eq_refl)). exact (H3 q' (Eq q' eq_refl)).
+          * apply Tr; [intros rb Hi; exact (Reg ep st0 rb Hst0 Hi)|exact (H2 ep st0 Hst0)].
+        + rewrite nth_upd_other in Hst by exact Hne. apply Tr; [intros rb Hi; exact (Reg id st rb Hst Hi)|exact (H2 id st Hst)].
+      - intros y Hy. apply Dom7 in Hy. destruct Hy as [->|Hy]; [rewrite Newp; lia|]. rewrite (Old y Hy). pose proof (H3 y Hy). lia. }
+    destruct R7 as (K1 & K2 & K3).
+    assert (Hp7 : rk' p <= rk' p) by lia.
+    destruct (set_helper_frame fn rtl rk' fuel 0 0 w7 p v w' Hna7 Hinv7 K1 (Nat.le_0_l _) (Nat.le_0_l _) H7) as (V & _ & _ & _ & Ev).
+    apply (RANKED_views rk' (S M) w7 w' V Ev). split; [exact K1|split; [exact K2|exact K3]].
+  Qed.
+
+  Definition RANK (w : world) : Prop := exists rk M, RANKED rk M w.
+
+  Theorem RANK_step fuel w o w' :
+    ML fn w -> NOEMIT w -> PropReg.REGI w -> RANK w -> grow_op5 w o -> step1 fn rtl fuel w o = (w', None) -> RANK w'.
+  Proof.
+    intros HML HNE HR (rk & M & HRK) Ho H. pose proof HML as (Hinv & Hna & HS & HM). pose proof HRK as (K1 & K2 & K3).
+    assert (Same : (forall b, get_bind w' b = get_bind w b) -> w_props w' = w_props w -> w_evps w' = w_evps w -> RANK w').
+    { intros G Pp E. exists rk, M. apply (RANKED_same rk M w w'); [intros b; unfold bview; rewrite G; reflexivity|exact E|intros y; rewrite Pp; auto|exact HRK]. }
+    destruct o; cbn [grow_op5] in Ho; try contradiction.
+    - (* PNew *) cbn [step1] in H. destruct (lookup (w_props w) p) eqn:Hp; [discriminate H|]. inversion H; subst w'.
+      exists (bump rk p M), (S M). apply RANKED_new_prop; assumption.
+    - (* PSet *) cbn [step1] in H. destruct (lookup (w_props w) p) as [pr|]; [|discriminate H]. destruct (pr_updater pr); [discriminate H|].
+      destruct (set_helper_frame fn rtl rk fuel 0 0 w p v w' Hna Hinv K1 (Nat.le_0_l _) (Nat.le_0_l _) H) as (V & _ & _ & _ & Ev).
+      exists rk, M. exact (RANKED_views rk M w w' V Ev HRK).
+    - cbn [step1] in H. destruct (lookup (w_props w) p); [|discriminate H]. inversion H; subst w'. apply Same; reflexivity.
+    - cbn [step1] in H. destruct (lookup (w_props w) p); [|discriminate H]. inversion H; subst w'. apply Same; reflexivity.
+    - (* PObserve *) destruct act; [contradiction|]. cbn [step1] in H.
+      destruct (match k with KMoved => true | _ => false end); [discriminate H|].
+      destruct (subscribe w p k (SObs label None)) as [[w1 hd]|] eqn:Hs; [|discriminate H]. inversion H; subst w'. clear H.
+      pose proof (subscribe_ext _ _ _ _ _ _ Hs (pi_twf _ _ _ _ _ _ _ Hinv) (pi_own _ _ _ _ _ _ _ Hinv)) as E.
+      exists rk, M. apply (RANKED_same rk M w); [| | |exact HRK].
+      + intros b. unfold bview, get_bind. cbn [set_obs w_binds]. rewrite (se_binds _ _ _ _ _ _ E). reflexivity.
+      + cbn [set_obs w_evps]. exact (se_evps _ _ _ _ _ _ E).
+      + intros y Hy Hn. cbn [set_obs w_props] in Hy. pose proof (proj2 (se_pdom _ _ _ _ _ _ E y)) as D. unfold pview in D. rewrite Hn in D. specialize (D eq_refl).
+        destruct (lookup (w_props w1) y); [discriminate D|contradiction].
+    - (* PBind *) destruct Ho as (Hp & Hmode). exists (bump rk p M), (S M). exact (RANKED_bind_fresh rk M fuel w p e m w' HML HNE HR HRK Hp Hmode H).
+    - (* BevNew *) cbn [step1] in H. destruct (lookup (w_bevs w) e); [discriminate H|]. inversion H; subst w'. exists rk, M. split; [|split].
+      + intros b ls q lf y Hb. exact (K1 b ls q lf y Hb).
+      + intros id st Hst. cbn [set_bevs set_evps w_evps] in Hst.
+        destruct (Nat.lt_ge_cases id (length (w_evps w))) as [Hlt|Hge]; [rewrite nth_error_app1 in Hst by exact Hlt; apply (rord_transfer rk rk w _ _ 0); [intros rb _; split; [reflexivity|auto]|exact (K2 id st Hst)]|].
+        rewrite nth_error_app2 in Hst by exact Hge. destruct (id - length (w_evps w)) as [|n]; cbn in Hst; [inversion Hst; subst st; exact I|destruct n; discriminate Hst].
+      + exact K3.
+    - (* BevCopy *) cbn [step1] in H. destruct (lookup (w_bevs w) src); [|discriminate H]. destruct (lookup (w_bevs w) dst); [discriminate H|].
+      inversion H; subst w'. apply Same; reflexivity.
+    - (* BevEvalAll *) destruct Ho as (id & He & Hid). pose proof H as H0. cbn [step1] in H0. rewrite He in H0.
+      destruct (nth_error (w_evps w) id) as [st|] eqn:Hst; [|discriminate H0].
+      destruct (mixed_evalall_one_pass fn rtl rk fuel w e id st w' HML K1 HR He Hid Hst (K2 id st Hst) H) as (_ & V & Ev & _).
+      exists rk, M. exact (RANKED_views rk M w w' V Ev HRK).
+  Qed.
+
+  Lemma RANK_world0 : RANK world0.
+  Proof.
+    exists (fun _ => 0), 0. split; [|split].
+    - intros b ls q lf y Hb. unfold bview, get_bind, world0 in Hb. cbn in Hb. destruct b; discriminate Hb.
+    - intros id st Hst. unfold world0 in Hst. cbn in Hst. destruct id as [|[|id]]; cbn in Hst; [inversion Hst; subst st; exact I|discriminate Hst|discriminate Hst].
+    - intros y Hy. exfalso. apply Hy. reflexivity.
+  Qed.
+
+  Theorem RANK_reachable fuel : forall ops w, ML fn w -> NOEMIT w -> PropReg.REGI w -> RANK w -> run5_ok fn rtl fuel w ops ->
+    RANK (fold_left (step fn rtl fuel) ops w).
+  Proof.
+    induction ops as [|o r IH]; intros w HML HNE HR HK Hok; cbn [fold_left]; [exact HK|]. destruct Hok as (Ho & Hs & Hr).
+    pose proof (PropReg.step_rmono fn rtl fuel w o) as (RM & _).
+    assert (HNE' : NOEMIT (step fn rtl fuel w o)).
+    { unfold step. pose proof (step1_tmono fn rtl fuel w o) as Mo. destruct (step1 fn rtl fuel w o) as [w1 r1]. cbn [fst] in Mo.
+      intros t Ht. apply (NOEMIT_tmono _ _ HNE Mo t). exact Ht. }
+    assert (St : ML fn (step fn rtl fuel w o) /\ RANK (step fn rtl fuel w o)).
+    { unfold step. destruct (step1 fn rtl fuel w o) as [w1 r1] eqn:H1. cbn [snd] in Hs. subst r1. split.
+      - apply ML_log. exact (ML_step fn rtl fuel w o w1 HML HNE HR Ho H1).
+      - destruct (RANK_step fuel w o w1 HML HNE HR HK Ho H1) as (rk & M & HRK). exists rk, M. apply (RANKED_same rk M w1); [reflexivity|reflexivity|auto|exact HRK]. }
+    destruct St as (ML' & RK'). apply IH; [exact ML'|exact HNE'|exact (RM HR)|exact RK'|exact Hr].
+  Qed.
+
+  (* C06 in mixed worlds, end to end: after ANY history of a growing mixed network ONE evaluateAll of an explicit evaluator makes
+     every property bound through it equal to its expression over the values after the pass *)
+  Theorem mixed_reachable_one_pass fuel ops e id st w' :
+    run5_ok fn rtl fuel world0 ops ->
+    let w := run fn rtl fuel ops in
+    lookup (w_bevs w) e = Some id -> id <> 0 -> nth_error (w_evps w) id = Some st ->
+    step1 fn rtl fuel w (BevEvalAll e) = (w', None) ->
+    ML fn w' /\
+    forall rid b, In (rid, b) (ep_registry st) ->
+      exists x T q, get_bind w' b = Some x /\ abs_tree (b_root x) = Some T /\ b_target x = Some q /\ A.clean T /\
+                    envof w' q = A.den F1 F2 F3 (envof w') T.
+  Proof.
+    intros Hok w He Hid Hst H.
+    pose proof (mixed_reachable_ML fn rtl fuel ops Hok) as HML. change (ML fn w) in HML.
+    destruct (RANK_reachable fuel ops world0 (ML_world0 fn) NOEMIT_world0 PropReg.REGI_world0 RANK_world0 Hok) as (rk & M & (K1 & K2 & _)).
+    pose proof (PropReg.reachable_REGI fn rtl fuel ops) as HR. change (PropReg.REGI w) in HR.
+    destruct (mixed_evalall_one_pass fn rtl rk fuel w e id st w' HML K1 HR He Hid Hst (K2 id st Hst) H) as (A1 & _ & _ & A4). auto.
+  Qed.
+End Rank.
